@@ -361,9 +361,27 @@ func c45(c *Ctx) {
 			}(), ci, f, "one-address-set-per-resource", "the address set is not shared by all localities of the resource (duplicates across localities would pass)")
 		}
 	})
+	c.Ob("lds-invariants", "R2", "processClientSideListener: a listener with non-zero xff_num_trusted_hops, with original-IP detection extensions, with an RDS config source that is neither ADS nor self, or with an empty route configuration name is never accepted", 4, func() {
+		f := c.fn(xdsrsrc, "processClientSideListener")
+		hcm := "github.com/envoyproxy/go-control-plane/envoy/extensions/filters/network/http_connection_manager/v3"
+		c.Rejects(f, "xff-hops-rejected", CmpInt(FieldLoad(c.field(hcm, "HttpConnectionManager", "XffNumTrustedHops")), token.NEQ, 0))
+		c.Rejects(f, "ip-detection-extensions-rejected", CmpInt(LenOf(FieldLoad(c.field(hcm, "HttpConnectionManager", "OriginalIpDetectionExtensions"))), token.NEQ, 0))
+		c.Rejects(f, "empty-route-config-name-rejected", Cmp(CallRes(Callee(hcm, "Rds.GetRouteConfigName"), 0), token.EQL, ConstStr("")))
+		cs := "github.com/envoyproxy/go-control-plane/envoy/config/core/v3"
+		c.Rejects(f, "foreign-rds-config-source-rejected", IsNil(CallRes(Callee(cs, "ConfigSource.GetAds"), 0)), IsNil(CallRes(Callee(cs, "ConfigSource.GetSelf"), 0)))
+	})
 	c.Ob("rds-invariants", "R2", "routesProtoToSlice: a route needs a match and a path specifier; weighted clusters: sum in uint64 checked against MaxUint32, total 0 rejected; every collected route has an action type set", 5, func() {
 		f := c.fn(xdsrsrc, "routesProtoToSlice")
 		routepb := "github.com/envoyproxy/go-control-plane/envoy/config/route/v3"
+		c.Expect(c.NoEarlyExit(f, ParamV("routes"), "every-route-of-the-virtual-host-considered") == 1, nil, f, "route-walk", "no walk over the virtual host's routes")
+		// max stream duration: grpc_timeout_header_max wins; max_stream_duration is consulted only without it; a duration is recorded only when one is set
+		ghm := CallRes(Callee(routepb, "RouteAction_MaxStreamDuration.GetGrpcTimeoutHeaderMax"), 0)
+		for _, ci := range callsIn(f, Callee(routepb, "RouteAction_MaxStreamDuration.GetMaxStreamDuration")) {
+			c.MustFact(ci, "plain-max-duration-only-without-header-max", IsNil(ghm))
+		}
+		for _, ci := range callsIn(f, CalleeX("google.golang.org/protobuf/types/known/durationpb", "Duration.AsDuration")) {
+			c.MustFact(ci, "duration-recorded-only-when-set", NotNil(func(v ssa.Value) bool { return typeName(v.Type()) == "Duration" }))
+		}
 		var app *ssa.Call
 		for _, in := range instrsWhere(f, func(in ssa.Instruction) bool {
 			call, ok := in.(*ssa.Call)
@@ -379,6 +397,21 @@ func c45(c *Ctx) {
 			return
 		}
 		c.Unreachable(app, "route-needs-a-match", IsNil(CallRes(CalleeX(routepb, "Route.GetMatch"), 0)))
+		// cluster specifier: a route whose specifier is none of the known wrappers, or an optional unsupported plugin, is ignored — never collected
+		var noneCS []FM
+		for _, ta := range typeSwitchArms(f) {
+			if !CallRes(CalleeX(routepb, "RouteAction.GetClusterSpecifier"), 0)(ta.X) {
+				continue
+			}
+			ta := ta
+			noneCS = append(noneCS, Truth(func(v ssa.Value) bool {
+				e, ok := v.(*ssa.Extract)
+				return ok && e.Index == 1 && e.Tuple == ssa.Value(ta)
+			}, false))
+		}
+		if c.Expect(len(noneCS) == 3, app, f, "cluster-specifier-switch", "expected the cluster / weighted-clusters / plugin arms of the cluster-specifier switch") {
+			c.Unreachable(app, "route-with-unknown-cluster-specifier-ignored", noneCS...)
+		}
 		c.Unreachable(app, "route-needs-a-path-specifier", IsNil(CallRes(CalleeX(routepb, "RouteMatch.GetPathSpecifier"), 0)))
 		wc := Truth(func(v ssa.Value) bool {
 			e, ok := v.(*ssa.Extract)
